@@ -220,8 +220,46 @@ pub fn base_cfg(rng: &mut SRng, quick: bool, want_byz: bool, want_crash: bool) -
         tx_rate: *[0u32, 5, 40].choose(rng).unwrap(),
         withhold: None,
         hostile: None,
+        rival: None,
+        track_routes: false,
         label: String::new(),
     }
+}
+
+/// Turns `cfg` into the directed rival-split script (five validators, stakes on the thresholds).
+pub fn rival_cfg(rng: &mut SRng, cfg: &mut RunCfg) {
+    let z = rng.random_range(1..=19u64);
+    let c = rng.random_range(40 - z.min(39)..=40).max(2);
+    let ua = 100 - z - c;
+    // neither X-group node may reach safe-to-skip on its own stake (40 %) before the certificate arrives
+    let u = rng.random_range(ua.saturating_sub(39).max(1)..=39.min(ua - 1));
+    let a = ua - u;
+    let c1 = rng.random_range(1..c);
+    let c2 = c - c1;
+    // the Byzantine validator leads window `iz` (1..=4)
+    let iz = rng.random_range(1..=4usize);
+    let mut rest: Vec<usize> = (0..5).filter(|i| *i != iz).collect();
+    rest.shuffle(rng);
+    let (iu, ia, ic1, ic2) = (rest[0], rest[1], rest[2], rest[3]);
+    let mut stakes = vec![0u64; 5];
+    stakes[iz] = z;
+    stakes[iu] = u;
+    stakes[ia] = a;
+    stakes[ic1] = c1;
+    stakes[ic2] = c2;
+    cfg.ep = make_epoch(rng, &stakes, "rival-thresholds");
+    cfg.byz = [iz].into_iter().collect();
+    cfg.crashes.clear();
+    cfg.byz_leader = ByzLeader::RivalSplit;
+    cfg.byz_votes = true;
+    cfg.byz_certs = true;
+    cfg.chaos = chaos_profiles()[0].clone();
+    cfg.t_stable = Duration::ZERO;
+    cfg.delta = Duration::from_millis(20);
+    cfg.diss = DissKind::Trivial;
+    cfg.tx_rate = 0;
+    cfg.duration = Duration::from_secs(14 + 2 * iz as u64);
+    cfg.rival = Some(Rival { z: iz, u: iu, a: ia, c1: ic1, c2: ic2 });
 }
 
 pub fn run_c02(ctx: &mut Ctx) -> Result<(), String> {
@@ -326,6 +364,30 @@ pub fn judge_all(ctx: &mut Ctx, focus: &str, cfg: &RunCfg, out: &RunOut) {
         }
         _ => {}
     }
+    if let Some(r) = &cfg.rival {
+        // did the directed script reach the situation it aims at?
+        let slot = 4 * r.z as u64;
+        let nf: BTreeSet<usize> = out.votes_sent.iter().filter(|(_, s, v)| (*s == r.u || *s == r.a) && v.slot == slot && v.kind == VK::NotarFallback).map(|x| x.1).collect();
+        let fin: BTreeSet<usize> = out.votes_sent.iter().filter(|(_, s, v)| (*s == r.u || *s == r.a) && v.slot == slot && v.kind == VK::Final).map(|x| x.1).collect();
+        let blocks: BTreeSet<H32> = out.byz_blocks.iter().filter(|(b, _)| b.0 == slot).map(|(b, _)| b.1).collect();
+        let certified: BTreeSet<(CK, H32)> = out.held.values().flatten().filter(|c| c.slot == slot).filter_map(|c| c.hash.map(|h| (c.kind, h))).collect();
+        let certified: BTreeSet<(CK, H32)> = certified.into_iter().chain(out.certs_sent.iter().map(|c| &c.2).chain(out.certs_delivered.iter().map(|c| &c.2)).filter(|c| c.slot == slot).filter_map(|c| c.hash.map(|h| (c.kind, h)))).collect();
+        let both = blocks.len() == 2 && blocks.iter().all(|h| certified.iter().any(|(_, x)| x == h));
+        let notarized: Vec<H32> = out.certs_sent.iter().map(|c| &c.2).chain(out.certs_delivered.iter().map(|c| &c.2)).filter(|c| c.slot == slot && c.kind == CK::Notar).filter_map(|c| c.hash).collect();
+        let chain_at_slot: BTreeSet<H32> = out.fin_logs.values().flatten().filter_map(|e| match e { FinEv::Finalized(b) | FinEv::ImplicitlyFinalized(b) if b.0 == slot => Some(b.1), _ => None }).collect();
+        ctx.count("rival-script:executions");
+        ctx.count_n("rival-script:x-group-nodes-cast-notar-fallback", nf.len() as u64);
+        ctx.count_n("rival-script:x-group-nodes-cast-final", fin.len() as u64);
+        if both {
+            ctx.count("rival-script:both-blocks-certified");
+        }
+        for h in &chain_at_slot {
+            ctx.count(if notarized.contains(h) { "rival-script:chain-continued-on-the-notarized-block" } else { "rival-script:chain-continued-on-the-fallback-certified-block" });
+        }
+        if both && !chain_at_slot.is_empty() {
+            ctx.distinct(format!("c01:rival:z{}:{}", r.z, if chain_at_slot.iter().any(|h| notarized.contains(h)) { "on-notarized" } else { "on-fallback" }));
+        }
+    }
     report(ctx, focus, cfg, sf, info.clone());
     report(ctx, focus, cfg, vf, info.clone());
     report(ctx, focus, cfg, pf, info.clone());
@@ -354,7 +416,8 @@ pub fn run_c01(ctx: &mut Ctx) -> Result<(), String> {
             c.1 = Duration::from_millis(rng.random_range(0..cfg.duration.as_millis() as u64));
         }
         // directed scripts on top of the random mix
-        match i % 4 {
+        let script = (i as usize + ctx.shard) % 4;
+        match script {
             0 => {
                 // S1/S2: leader delivery timed against the timeouts: moderate delays around Delta
                 cfg.chaos.max_delay = Duration::from_millis(900);
@@ -369,9 +432,15 @@ pub fn run_c01(ctx: &mut Ctx) -> Result<(), String> {
                 cfg.byz = pick_minor(&mut rng, &stakes, &BTreeSet::new(), true);
                 cfg.crashes.clear();
             }
+            2 => {
+                // S2': rival split on the thresholds (see clusterrun::Rival): a notarized block and a
+                // notar-fallback certified sibling, the notarization certificate arriving as a message
+                // after the fallback votes; the chain continues on either block
+                rival_cfg(&mut rng, &mut cfg);
+            }
             _ => {}
         }
-        cfg.label = format!("c01-script{}", i % 4);
+        cfg.label = format!("c01-script{script}");
         let out = rt.block_on(tokio::task::unconstrained(execute(&cfg, &mut rng)));
         judge_all(ctx, "C01", &cfg, &out);
     }
@@ -398,6 +467,69 @@ pub fn run_c05_wire(ctx: &mut Ctx, runs_q: u64, runs_t: u64) {
         judge_all(ctx, "C05", &cfg, &out);
     }
     let _: Option<(Bid, VK)> = None;
+}
+
+/// C16 at node level: in fault-free executions every shred a leader sends reaches every other validator,
+/// through exactly one relay broadcast (the forwarding decision sits in the node's message loop, not in
+/// the disseminator alone).
+pub fn run_c16_nodes(ctx: &mut Ctx, runs_q: u64, runs_t: u64) {
+    let rt = tokio::runtime::Builder::new_current_thread().enable_all().start_paused(true).build().expect("rt");
+    let mut rng = ctx.rng("c16-nodes");
+    let runs = ctx.iters(runs_q, runs_t);
+    for _ in 0..runs {
+        let mut cfg = base_cfg(&mut rng, ctx.quick(), false, false);
+        cfg.byz.clear();
+        cfg.crashes.clear();
+        cfg.chaos = chaos_profiles()[0].clone();
+        cfg.chaos.max_delay = Duration::from_millis(*[0u64, 5, 30].choose(&mut rng).unwrap());
+        cfg.t_stable = Duration::ZERO;
+        cfg.delta = cfg.chaos.max_delay;
+        cfg.diss = DissKind::Rotor;
+        cfg.tx_rate = *[0u32, 20].choose(&mut rng).unwrap();
+        cfg.duration = Duration::from_secs(if ctx.quick() { 8 } else { 14 });
+        cfg.track_routes = true;
+        cfg.label = "c16-nodes".into();
+        let out = rt.block_on(tokio::task::unconstrained(execute(&cfg, &mut rng)));
+        ctx.eval();
+        ctx.count("node-level-executions");
+        let n = cfg.ep.n();
+        let last_slot = out.routes.keys().map(|k| k.0).max().unwrap_or(0);
+        let mut judged = 0u64;
+        let mut self_relay = 0u64;
+        for ((slot, slice, idx), r) in &out.routes {
+            // the run may end in the middle of the last slots' dissemination
+            if *slot + 2 > last_slot {
+                continue;
+            }
+            let leader = leader_of(n, *slot);
+            judged += 1;
+            let senders: BTreeSet<usize> = r.sent.iter().map(|x| x.0).collect();
+            let relays: BTreeSet<usize> = senders.iter().copied().filter(|s| *s != leader).collect();
+            let leader_targets: BTreeSet<usize> = r.sent.iter().filter(|x| x.0 == leader).map(|x| x.1).collect();
+            if leader_targets.len() > 1 || leader_targets.contains(&leader) {
+                self_relay += 1;
+            }
+            let got: BTreeSet<usize> = r.delivered.iter().copied().collect();
+            let missing: Vec<usize> = (0..n).filter(|v| *v != leader && !got.contains(v)).collect();
+            let wit = json!({"config": cfg.describe(), "shred": [slot, slice, idx], "leader": leader, "sent": r.sent, "delivered": r.delivered});
+            if !missing.is_empty() {
+                ctx.violation("C16 node level: a shred the leader sent did not reach every other validator in a fault-free run", format!("slot {slot} slice {slice} shred {idx}: never delivered to {missing:?} (leader {leader}, senders {senders:?})"), wit.clone());
+            }
+            if relays.len() > 1 {
+                ctx.violation("C16 node level: more than one relay broadcast for a shred", format!("slot {slot} slice {slice} shred {idx}: relays {relays:?}"), wit);
+            }
+        }
+        ctx.count_n("node-level-shreds-judged", judged);
+        ctx.count_n("node-level-shreds-relayed-by-their-leader", self_relay);
+        if judged > 0 {
+            ctx.distinct(format!("c16n:n{}:{}:d{}:self-relay{}", n, cfg.ep.family, cfg.delta.as_millis(), (self_relay > 0) as u8));
+        }
+        for p in &out.panics {
+            if p.in_repo() {
+                ctx.violation(format!("C10 node task {}", p.sig()), format!("{} at {}:{}", p.msg, p.file, p.line), json!({"config": cfg.describe()}));
+            }
+        }
+    }
 }
 
 /// C10: hostile input on all five interfaces and Byzantine-signed content never crash or wedge a node.
